@@ -210,6 +210,10 @@ def constructed(ctx):
     # model 2 lacks the Asp side chain beyond CB (completed from model 1)
     lack = "\n".join([ln for ln in frag if not (side(ln) and ln[12:16].strip() != "CB")] + [C.TER])
     out.append(("model2-missing-atoms", f"MODEL        1\n{body}\nENDMDL\nMODEL        2\n{lack}\nENDMDL\nEND\n"))
+    # a whole chain that only the second model has (model 1: chain A; model 2: chains A and B)
+    fb_ = C.chain_lines("1HPX", "B", 22, 6)
+    bodyb = "\n".join(frag + [C.TER] + fb_ + [C.TER])
+    out.append(("model2-adds-chain-B", f"MODEL        1\n{body}\nENDMDL\nMODEL        2\n{bodyb}\nENDMDL\nEND\n"))
     # insertion-coded twins with an alternate location elsewhere (F3c)
     tw = C.relabel_residues(both, {ids[4]: (ids[3][0], ids[3][1], "A")})
     out.append(("twins+altloc", C.join(tw + [C.TER])))
@@ -288,6 +292,22 @@ def run(ctx):
         ctx.nontriv(text)
         recs.append(record(rr, text, ign, with_h=("-k" in ropts)))
         metas.append({"input": name, "pdb": text, "confs": recs[-1]["cname"], "optargs": ropts[1:]})
+    # the written file of the average: a sentence of PkaFile.tla whose determinant table and summary list the same groups
+    from .. import pkafile
+    lay = []
+    for name, text, ropts in inputs:
+        if name in ("model2-adds-chain-B", "asp-only-in-B", "mutant-A-ASN-B-ASP", "conf-model-mutant", "conf-alt-AB-mutant"):
+            rw = runner.run(text, ropts, write=True)
+            ctx.count()
+            if rw.exc is None and rw.pka_text:
+                lay.append((pkafile.record(rw, name), name, text))
+    if lay:
+        lv = pkafile.validate(ctx, [x[0] for x in lay], "files of multi-conformation runs")
+        for inv in ("F_Accepted", "F_TablesAgree"):
+            for i_ in lv.get(inv, [])[:2]:
+                ctx.violation(f"conf:ReportedUnion:file:{inv}:{lay[i_][1]}",
+                              f"{inv} violated by the file written for {lay[i_][1]} (determinant table and summary of the average)",
+                              {"pdb": lay[i_][2]})
     wd = tlc.workdir("c08")
     tf = os.path.join(wd, "conf.json")
     json.dump(recs, open(tf, "w"))
